@@ -15,6 +15,7 @@ package union
 //@ emits: decls
 //@ serves: union len=1 kind=Map typ=typs[0]
 //@ o-sig: (union, that map[$key(typ)]struct{}) (r map[$key(typ)]struct{})
+//@ o-mutates: union
 //@ o-requires: union != nil
 //@ o-ensures: [union] forall k val :: (k in r) <==> (k in union || k in that)
 //@ o-loop: 1: invariant union != nil && forall k val :: (k in union) <==> (k in old(union) || visited(k))
@@ -23,6 +24,7 @@ package union
 //@ emits: decls
 //@ serves: union len=1 kind=Slice typ=typs[0]
 //@ o-sig: (this, that []$elem(typ)) (r []$elem(typ))
+//@ o-mutates: this
 //@ o-ensures: [first-list-then-new-items] len(r) >= len(this) && forall j int :: 0 <= j && j < len(this) ==> r[j] == this[j]
 //@ o-ensures: [covers-that] forall j int :: 0 <= j && j < len(that) ==> exists k int :: 0 <= k && k < len(r) && EqC(elem(typ), r[k], that[j])
 //@ o-ensures: [only-from-inputs] forall k int :: len(this) <= k && k < len(r) ==> exists j int :: 0 <= j && j < len(that) && r[k] == that[j]
